@@ -515,6 +515,8 @@ def grouping_order(ctx: Ctx, join_guard: bool = True) -> None:
     g = p.func("simfile.notes.group:group_notes")
     j = g.nested.get("join_heads_to_tails_")
     require(j is not None, "group_notes.join_heads_to_tails_ not found")
+    for nm_ in ("join_head_to_tail", "flush", "maybe_buffer"):
+        require(g.nested.get(nm_) is not None, f"group_notes.{nm_} not found (closure merged, moved or renamed)")
     cfg = ctx.cfg(j)
     loops = [lp for lp in for_loops(j) if isinstance(lp.iter, ast.Name) and lp.iter.id == j.param_names()[0]]
     main = one(loops, f"main loop of {j.fq}")
